@@ -81,9 +81,45 @@ func parseYAML(reader io.Reader, envUsageEnabled bool) (*RuleSet, error) {
 		return nil, err
 	}
 
+	if err := checkKeys(rawConfig); err != nil {
+		return nil, err
+	}
+
 	if err := DecodeConfig(rawConfig, &ruleSet); err != nil {
 		return nil, err
 	}
 
 	return &ruleSet, nil
+}
+
+// checkKeys rejects mappings with keys, which are not strings. Such mappings are
+// valid YAML, but cannot be decoded into the rule set structures.
+func checkKeys(node any) error {
+	switch typed := node.(type) {
+	case map[string]any:
+		for _, value := range typed {
+			if err := checkKeys(value); err != nil {
+				return err
+			}
+		}
+	case map[any]any:
+		for key, value := range typed {
+			if _, ok := key.(string); !ok {
+				return errorchain.NewWithMessagef(heimdall.ErrConfiguration,
+					"mapping key '%v' is not a string", key)
+			}
+
+			if err := checkKeys(value); err != nil {
+				return err
+			}
+		}
+	case []any:
+		for _, value := range typed {
+			if err := checkKeys(value); err != nil {
+				return err
+			}
+		}
+	}
+
+	return nil
 }
